@@ -10,8 +10,14 @@ package mitm
 //@   serves C06
 //@   requires c != nil
 //@   ensures result != nil
+// C03: a failed handshake with no callback registered (the default) must not take the process down: the callback is
+// only called when there is one.
 //@ func (*Config).HandshakeErrorCallback
-//@   trusted
+//@   serves C03
+//@   safe nil
+//@   dyncalls-opaque
+//@   requires c != nil
+//@   modifies nothing
 //@ func (*Config).H2Config
 //@   trusted
 //@   ensures result != nil
